@@ -202,3 +202,10 @@ def plan_filter_params(plan_cfg, spec=None):
         else:
             out["max_dist"], out["min_dist"] = _per_label(rg["max"], n), _per_label(rg["min"], n)
     return out
+
+
+def plan_policy(plan_cfg):
+    """The label policy as the plan configured it ("DEFAULT" / "ALLOW_UNKNOWN" / "ALLOW_ANY")."""
+    if plan_cfg.get("policy"):
+        return str(plan_cfg["policy"]).upper()
+    return "ALLOW_UNKNOWN" if plan_cfg.get("allow_unknown_flag") else "DEFAULT"
